@@ -47,3 +47,46 @@ MUTANTS["C18"] = [
          ("rv/errors.py", "class RadiantVoicesError(Exception):\n    pass", "_depth = 0\n_saved = True\n\n\nclass RadiantVoicesError(Exception):\n    pass")],
     ),
 ]
+
+MUTANTS["C19"] = [
+    (
+        "set_via_fn installs the working copy before the loop",
+        [("rv/pattern.py", "        new = self._copy_data()\n        for line in range(self.lines):\n            for track in range(self.tracks):\n                new[line][track] = fn(self, line, track)\n        self._install_data(new)",
+          "        new = self._copy_data()\n        self._install_data(new)\n        for line in range(self.lines):\n            for track in range(self.tracks):\n                new[line][track] = fn(self, line, track)\n        self._install_data(new)")],
+    ),
+    (
+        "set_via_gen works on the live grid (alias)",
+        [("rv/pattern.py", "        new = self._copy_data()\n        for line, track, note in gen(self, new):",
+          "        new = self.data\n        for line, track, note in gen(self, new):")],
+    ),
+    (
+        "shallow copy of the grid (rows copied, notes shared)",
+        [("rv/pattern.py", "                copy = note.clone()\n                copy.pattern = self\n                new_line.append(copy)",
+          "                new_line.append(note)")],
+    ),
+    (
+        "set_via_fn writes in place, rolls back only on Exception",
+        [("rv/pattern.py", "        new = self._copy_data()\n        for line in range(self.lines):\n            for track in range(self.tracks):\n                new[line][track] = fn(self, line, track)\n        self._install_data(new)",
+          "        old = [row[:] for row in self.data]\n        new = self.data\n        try:\n            for line in range(self.lines):\n                for track in range(self.tracks):\n                    new[line][track] = fn(self, line, track)\n        except Exception:\n            self._data = old\n            raise\n        self._install_data(new)")],
+    ),
+    (
+        "set_via_gen: the last yielded note is dropped",
+        [("rv/pattern.py", "        for line, track, note in gen(self, new):\n            new[line][track] = note\n        self._install_data(new)",
+          "        pending = None\n        for line, track, note in gen(self, new):\n            if pending is not None:\n                new[pending[0]][pending[1]] = pending[2]\n            pending = (line, track, note)\n        self._install_data(new)")],
+    ),
+    (
+        "installed notes are not re-owned (revert of the fix, install half)",
+        [("rv/pattern.py", "        for line in new:\n            for note in line:\n                note.pattern = self\n        self._data = new",
+          "        self._data = new")],
+    ),
+    (
+        "copied notes lose their pattern, install re-owns only notes without a pattern",
+        [("rv/pattern.py", "        for line in new:\n            for note in line:\n                note.pattern = self\n        self._data = new",
+          "        for line in new:\n            for note in line:\n                if note.pattern is None:\n                    note.pattern = self\n        self._data = new")],
+    ),
+    (
+        "set_via_fn: a failure in the very last cell still installs",
+        [("rv/pattern.py", "        new = self._copy_data()\n        for line in range(self.lines):\n            for track in range(self.tracks):\n                new[line][track] = fn(self, line, track)\n        self._install_data(new)",
+          "        new = self._copy_data()\n        try:\n            for line in range(self.lines):\n                for track in range(self.tracks):\n                    new[line][track] = fn(self, line, track)\n        finally:\n            if line == self.lines - 1 and track == self.tracks - 1:\n                self._install_data(new)")],
+    ),
+]
